@@ -28,6 +28,18 @@ func runC01(c *engine.Ctx, tier string) {
 	// crash inside one store update leaves that target claiming a change whose values are lost, while the
 	// other targets of the request hold theirs
 	storeWriteOrder(c, "C01.8a", "C01.8b")
+	// the per-target chain is linked while the proposed cursor still points at the predecessor: a proposal left
+	// without its predecessor link takes the commit shortcut of another proposal and is skipped on that target only
+	c.Al = proposalAliases(c.P)
+	link := "@CFG.Status.Proposed.Index < @OWN"
+	c.Guard(engine.Guard{ID: "C01.9a", Pkg: pkgProposalCtl, Min: 1,
+		Sel:     engine.Sel{Field: "config/v2.ProposalStatus.NextIndex"},
+		Require: link + " && @CFG.Status.Proposed.Index > 0 && err(@PREVP) == nil && @PREVP.Status.NextIndex == 0",
+		Why:     "the predecessor's NextIndex is set once, to this proposal, while the proposed cursor still points at the predecessor"})
+	c.Guard(engine.Guard{ID: "C01.9b", Pkg: pkgProposalCtl, Min: 1,
+		Sel:     engine.Sel{Field: "config/v2.ProposalStatus.PrevIndex"},
+		Require: link + " && @CFG.Status.Proposed.Index > 0 && err(@PREVP) == nil && @P.Status.PrevIndex == 0",
+		Why:     "PrevIndex is taken from the proposed cursor while it still points at the predecessor"})
 	c.Al = transactionAliases(c.P)
 	for _, g := range []struct{ id, rhs, prev string }{
 		{"C01.1f", "config/v2.TransactionStatus_VALIDATED", "config/v2.TransactionValidatePhase.State=config/v2.TransactionValidatePhase_VALIDATED"},
